@@ -35,6 +35,8 @@ pub enum StaticCase {
     Big(crate::checks::metamorphic::MetaCase),
     /// a disjoint union of many small components with interleaved ids: exact answers by composition
     Composite(crate::checks::composite::CompositeCase),
+    /// in-degrees of 2^16 and beyond, grounded-based problems only (C01-C03)
+    HugeFan(crate::checks::hugefan::HugeFan),
 }
 
 pub fn composite_strategy(tier: Tier) -> BoxedStrategy<crate::checks::composite::CompositeCase> {
@@ -133,6 +135,10 @@ pub fn exp_cost(g: &AbsGraph, with_multiplicity: bool) -> usize {
 pub const EXP_LIMIT: usize = 30_000;
 
 pub fn enc_feasible(enc: Enc, g: &AbsGraph, pres: &Pres) -> bool {
+    if matches!(pres, Pres::IccmaRepeated { .. }) && !g.att.is_empty() {
+        // a line repeated dozens to thousands of times: the cartesian product explodes by design
+        return enc != Enc::ExpCo;
+    }
     enc != Enc::ExpCo || exp_cost(g, matches!(pres, Pres::Iccma)) <= EXP_LIMIT
 }
 
@@ -461,7 +467,7 @@ impl Prop for Statics {
     }
 
     fn rule(&self) -> String {
-        let common = "Frameworks are generated by construction from mixed shapes (random digraphs of six density classes, unions of 2-4 components, cycles with chords, symmetric clusters, fan-in shapes around the hybrid threshold, planted self-attackers, isolated arguments, repeated attack declarations) and presented through ArgumentSet::new_with_labels, the ICCMA'23 reader, the Aspartix reader, or an update history leaving sparse ids; every problem is run with every selectable encoding on a fresh solver object and compared with brute-force reference semantics. About 1% of the cases (0.25% for C01) are disjoint unions of 3-30 (thorough: 45) small components, 20-200 arguments, declared in an interleaved order so that the components' ids are mixed, in ICCMA'23 or Aspartix text with some repeated attack lines: the reference answer is exact by composition (an extension of the union is a product of extensions of the components, for all seven semantics) although the framework is far beyond brute force; in half of them two more arguments u -> h are added and h attacks one argument of every component, which makes ONE connected component of 20-200 arguments whose answers (for all semantics but STG, which is skipped there) are still those of the union because h is defeated by the grounded extension; in half of them 1-3 components with closed-form extensions are added (directed even or odd cycles, chains, symmetric cliques of up to 60 arguments: single components far beyond brute force whose extension families are known). ";
+        let common = "Frameworks are generated by construction from mixed shapes (random digraphs of six density classes, unions of 2-4 components, cycles with chords, symmetric clusters, fan-in shapes around the hybrid threshold, planted self-attackers, isolated arguments, repeated attack declarations) and presented through ArgumentSet::new_with_labels, the ICCMA'23 reader, the Aspartix reader, or an update history leaving sparse ids; every problem is run with every selectable encoding on a fresh solver object and compared with brute-force reference semantics. About 1% of the cases (0.25% for C01) are disjoint unions of 3-30 (thorough: 45) small components, 20-200 arguments, declared in an interleaved order so that the components' ids are mixed, in ICCMA'23 or Aspartix text with some repeated attack lines: the reference answer is exact by composition (an extension of the union is a product of extensions of the components, for all seven semantics) although the framework is far beyond brute force; in half of them two more arguments u -> h are added and h attacks one argument of every component, which makes ONE connected component of 20-200 arguments whose answers (for all semantics but STG, which is skipped there) are still those of the union because h is defeated by the grounded extension; in half of them 1-3 components with closed-form extensions are added (directed even or odd cycles, chains, symmetric cliques of up to 60 arguments: single components far beyond brute force whose extension families are known). One case in 400 (C01: 1600) gives one argument of a small core 250 to 131075 attackers (distinct unattacked arguments of which a prefix is defeated, or one attack line repeated that often) and asks the grounded-based problems, judged by a linear-time reference. ";
         match self.which {
             Which::C01 => format!("{}A case (labelled attack multiset, presentation kind, semantics, encoder) is non-trivial when the framework has >=2 extensions under the semantics, or no stable extension, or >=2 components, or a self-attacker, or sparse ids, or the hybrid encoder takes its auxiliary branch; distinct = distinct such tuples (labelled graphs, not up to isomorphism).", common),
             Which::C02 | Which::C03 => format!("{}A case (graph, presentation kind, semantics, encoder, argument, certificate flag) is non-trivial when the argument is credulously but not skeptically accepted, or the semantics is PR/SST/STG with >=2 extensions, or ST has no extension in a framework of >=2 components, or (DS-PR) an admissible set attacks the argument; distinct = distinct tuples.", common),
@@ -487,8 +493,18 @@ impl Prop for Statics {
                 let composite = composite_strategy(tier).prop_map(StaticCase::Composite);
                 prop_oneof![120 => small, 2 => big, 1 => composite].boxed()
             }
-            Which::C01 => prop_oneof![400 => gen::graph_case(nmax).prop_map(StaticCase::Small), 1 => composite_strategy(tier).prop_map(StaticCase::Composite)].boxed(),
-            _ => prop_oneof![100 => gen::graph_case(nmax).prop_map(StaticCase::Small), 1 => composite_strategy(tier).prop_map(StaticCase::Composite)].boxed(),
+            Which::C01 => prop_oneof![
+                1600 => gen::graph_case(nmax).prop_map(StaticCase::Small),
+                4 => composite_strategy(tier).prop_map(StaticCase::Composite),
+                1 => crate::checks::hugefan::strategy().prop_map(StaticCase::HugeFan),
+            ]
+            .boxed(),
+            _ => prop_oneof![
+                400 => gen::graph_case(nmax).prop_map(StaticCase::Small),
+                4 => composite_strategy(tier).prop_map(StaticCase::Composite),
+                1 => crate::checks::hugefan::strategy().prop_map(StaticCase::HugeFan),
+            ]
+            .boxed(),
         }
     }
 
@@ -527,6 +543,7 @@ impl Prop for Statics {
                 return Ok(());
             }
             StaticCase::Composite(cc) => return crate::checks::composite::run(self.which, cc, rec),
+            StaticCase::HugeFan(h) => return crate::checks::hugefan::run_grounded(self.id(), h, rec),
         };
         let g = G::new(case.g.n, &case.g.att_usize());
         let fams = Fams::new(&g);
@@ -534,8 +551,9 @@ impl Prop for Statics {
             case,
             n_components: g.components().len(),
             sparse: matches!(case.pres, Pres::Sparse { .. }),
+
             self_att: g.has_self_attack(),
-            hybrid_aux: hybrid_aux_branch(&case.g, matches!(case.pres, Pres::Iccma)),
+            hybrid_aux: hybrid_aux_branch(&case.g, matches!(case.pres, Pres::Iccma)) || matches!(case.pres, Pres::IccmaRepeated { .. }),
             g,
             fams,
         };
